@@ -101,6 +101,7 @@ func genC03(x *Ctx) *c03Scen {
 			}
 			sp.Routes = append(sp.Routes, r)
 		})
+		sp.Repath = tp.Chance(150)
 		sc.Svcs = append(sc.Svcs, sp)
 	})
 	for _, sp := range sc.Svcs {
